@@ -306,8 +306,12 @@ func orchestrate(prop, tier string) int {
 	}
 
 	extra := map[string]any{}
+	posts := spec.Posts
 	if spec.Post != nil {
-		vs, ex, err := spec.Post(seed, tier, total)
+		posts = append([]func(uint64, string, *props.Cov) ([]*props.Violation, map[string]any, error){spec.Post}, posts...)
+	}
+	for _, post := range posts {
+		vs, ex, err := post(seed, tier, total)
 		if err != nil {
 			fmt.Fprintf(os.Stderr, "INFRASTRUCTURE: %v\n", err)
 			return 2
